@@ -98,6 +98,14 @@ def monitor(pid, year, base, assign, r, asked):
                 pass
             if rr.canon() != c0:
                 viols.append(('outcome-differs', f'variant {kind}: {_diff(r, rr)}', dict(variant=kind)))
+        if len(base.requested) > 1:
+            rr, _ = e3.run_return(year, base, assign, requested=list(reversed(base.requested)), keep_solver=True)
+            cnt['solves'] += 1
+            if rr.canon() != c0:
+                viols.append(('outcome-differs', f'request order reversed: {_diff(r, rr)}', dict(variant='request-reversed')))
+        if not assign and r.exc is None:
+            add(_cli_layouts(year, base, r))
+            cnt['solves'] += 5
     elif pid == 'C06':
         add(monitors.c06(r))
     elif pid == 'C10':
@@ -161,6 +169,34 @@ def _cli_report(year, base, r):
                     ok = all(w in line for w in ws)
             if not ok:
                 errs.append(('cli-report', f'{dep} (needed by {sorted(ws)[:3]}) is not named in the failure report'))
+    return errs
+
+
+def _cli_layouts(year, base, r):
+    """`habutax solve` on the same inputs written in different file layouts: same verdict text and solution"""
+    import os, configparser
+    from hv import cli
+    errs = []
+    ref = None
+    with cli.workdir() as d:
+        for layout in (None, 'sections-reversed', 'keys-reversed', 'both-reversed', 'colon-upper'):
+            inp = os.path.join(d, f'in_{layout}.ini')
+            sol = os.path.join(d, f'sol_{layout}.ini')
+            cli.write_inputs(inp, r.final_inputs, layout=layout)
+            res = cli.solve_cli(year, base.requested, inp, solution=sol)
+            if res['exc'] is not None:
+                got = ('raised', res['exc'][0])
+            else:
+                cp = configparser.ConfigParser(interpolation=None)
+                with open(sol) as fh:
+                    cp.read_file(fh)
+                head = res['stdout'].split('Solver results written')[0]
+                got = ('Successfully solved!' in head, {sec: dict(cp[sec]) for sec in cp.sections()},
+                       sorted(l for l in head.split('\n') if l.startswith('- ') or '(needed by:' in l))
+            if ref is None:
+                ref = got
+            elif got != ref:
+                errs.append(('cli-layout-differs', f'input file layout {layout}: outcome differs from the plain layout'))
     return errs
 
 
